@@ -268,6 +268,31 @@ def run(rep: Report, only=None) -> None:
     #  record what was analysed)
     rep.analysed["uncached_properties"] = sorted(nm.props)
 
+    # ------------------------------- H: bounded exploration of histories (second opinion)
+    # Every sequence of construction calls up to the bound, over a small universe, with all
+    # lookups read (hence cached) before each call: after each call every lookup, read
+    # through the caches and the real invalidating wrappers, equals its recomputation.
+    from .. import histories as H
+
+    length = 3 if rep.tier == "thorough" else 2
+    nh = 0
+    seen_bad = set()
+    for labels, bad in H.explore(prog, length):
+        nh += 1
+        if bad is None:
+            continue
+        key = (bad[0], labels[-1])
+        if key in seen_bad:
+            continue
+        seen_bad.add(key)
+        rep.refuted("H-history", " ; ".join(labels), f"{rel} Network.{labels[-1].split('(')[0]}", bad[1],
+                    key=f"H|{bad[0]}|{labels[-1].split('(')[0]}")
+    if not seen_bad:
+        rep.holds("H-history", f"all {nh} histories of {length} construction calls over a universe of 3 nodes, "
+                               "2 links, 2 origins, 3 destinations (incl. replacing, name clashes, failing bulk calls)", rel)
+    rep.analysed["histories_explored"] = nh
+    rep.floor("histories explored", nh, 200)
+
     # ---------------------------------------------- SIG on the view wrappers
     check_view_calls(rep, prog)
 
@@ -417,21 +442,33 @@ def check_view_calls(rep: Report, prog) -> int:
     the wrappers' own __call__."""
     mi = prog.module("sym_metanet.views")
     n_sites = 0
+
+    def nx_bases_of(ci, seen=()):
+        """installed-networkx base classes that `super()` inside class `ci` can resolve to:
+        its own external bases, or - for a mixin - those of the classes that inherit from it"""
+        out = [b for b in ci.ext_bases if b.startswith("networkx")]
+        if out:
+            return out
+        for other in mi.classes.values():
+            if ci.fq in other.bases and other.fq not in seen:
+                out += nx_bases_of(other, seen + (ci.fq,))
+        return out
+
     for cname, ci in mi.classes.items():
-        ext = [b for b in ci.ext_bases if b.startswith("networkx")]
-        if not ext:
+        exts = sorted(set(nx_bases_of(ci)))
+        if not exts:
             continue
-        base = ext[0]
-        modname, _, bcls = base.rpartition(".")
-        # nx.classes.reportviews.OutEdgeView -> networkx.classes.reportviews
         for mname, fi in ci.methods.items():
             for n in ast.walk(fi.node):
-                if (
+                if not (
                     isinstance(n, ast.Call)
                     and isinstance(n.func, ast.Attribute)
                     and isinstance(n.func.value, ast.Call)
                     and dotted_name(n.func.value.func) == "super"
                 ):
+                    continue
+                for base in exts:
+                    modname, _, bcls = base.rpartition(".")
                     n_sites += 1
                     callee, where = sigs.ext_method(modname, bcls, n.func.attr)
                     if callee is None:
@@ -450,11 +487,11 @@ def check_view_calls(rep: Report, prog) -> int:
                         f"{mi.relpath}:{n.lineno} {cname}.{mname}",
                         f"call shape does not bind to installed {where}"
                         f"({text(callee.args)}): {b.reason}",
-                        key=f"SIG-view|{cname}.{mname}|super().{n.func.attr}",
+                        key=f"SIG-view|{cname}.{mname}|super().{n.func.attr}|{bcls}",
                     )
     rep.floor("super() call sites in views.py", n_sites, 4)
     # per-node calls net.in_links(x) / net.out_links(x) across the package
-    wrappers = {c: ci for c, ci in mi.classes.items() if "__call__" in ci.methods}
+    wrappers = {c: ci for c, ci in mi.classes.items() if prog.lookup_method(ci.fq, "__call__") is not None}
     sig_by_prop = {}
     nmi = prog.module("sym_metanet.network")
     netci = nmi.classes["Network"]
@@ -462,7 +499,7 @@ def check_view_calls(rep: Report, prog) -> int:
         ra = fi.node.returns
         rn = dotted_name(ra) if ra is not None else None
         if rn in wrappers and fi.is_property():
-            sig_by_prop[pname] = (rn, sigs.sig_of(wrappers[rn].methods["__call__"].node, True))
+            sig_by_prop[pname] = (rn, sigs.sig_of(prog.lookup_method(wrappers[rn].fq, "__call__").node, True))
     ncalls = 0
     for m in prog.modules.values():
         for n in ast.walk(m.tree):
